@@ -161,6 +161,12 @@ pub fn run(ctx: &mut Ctx) {
             ctx.emit.line("corr", &format!("sign1:verify:{name}"), format!("cose.verifySign1 -7 {} {} {} {} {} {} {}", alg_tok(&alg), opt_hex(&c.inner.payload), opt_hex(&det), opt_hex(&ad),
                 hex_or_dash(&p_now), if parses { "t" } else { "f" }, if accepts { "t" } else { "f" }), real.clone(),
                 serde_json::json!({"case": name, "attached": att_v.is_some(), "alg": alg_tok(&alg), "msg_hex": format!("v{k}-{name}")}));
+            // the same verdict from the model using its OWN ECDSA over its own Sig_structure (no oracle from here); the first 500 of a run
+            { static N: std::sync::atomic::AtomicUsize = std::sync::atomic::AtomicUsize::new(0);
+              if N.fetch_add(1, std::sync::atomic::Ordering::Relaxed) < 500 {
+                let kp = key.to_encoded_point(false); let mut kb = kp.x().unwrap().to_vec(); kb.extend_from_slice(kp.y().unwrap());
+                ctx.emit.line("corr", &format!("sign1:verify-own-ecdsa:{name}"), format!("cose.verifySign1x -7 {} {} {} {} {} {} {}", alg_tok(&alg), opt_hex(&c.inner.payload), opt_hex(&det), opt_hex(&ad),
+                    hex_or_dash(&p_now), hex_or_dash(&c.inner.signature), hex::encode(kb)), real.clone(), serde_json::json!({"case": name, "msg_hex": format!("vx{k}-{name}")})); } }
             // Spec(real): success exactly for the honest case with a matching / unregistered algorithm
             let alg_ok = !matches!(alg, Alg::Assigned(_, n) if n != -7);
             let expect_success = name == "honest" || name.starts_with("unprotected-");
